@@ -1011,6 +1011,12 @@ std::string runConnectStorm(const std::vector<std::string>& t)
     tr->onConnect([&](SessionId, const TransportAddress&) { if (stopped.load()) lateCb++; });
     tr->onClose([&](SessionId sid, const TransportErrorInfo&) { if (stopped.load()) lateCb++; std::lock_guard<std::mutex> lk(idm); reported.insert(sid); });
     if (!tr->start().isOk()) return "storm-start-failed";
+    ListenerId viaLid = 0;
+    if (udp)
+    {
+      auto lv = tr->addListener("127.0.0.1", 0, TlsMode::None);     // opened before the storm: connectViaListener() goes through it
+      if (lv.isOk()) viaLid = lv.value();
+    }
     std::atomic<bool> go{false};
     std::vector<std::vector<SessionId>> oks(nthr);
     std::vector<std::thread> th;
@@ -1020,7 +1026,8 @@ std::string runConnectStorm(const std::vector<std::string>& t)
         while (!go.load()) std::this_thread::yield();
         for (int i = 0; i < (udp ? 3000 : 200000); ++i)
         {
-          auto x = raw->connect("127.0.0.1", 1, TlsMode::None);
+          auto x = (udp && viaLid != 0 && (i & 1)) ? raw->connectViaListener(viaLid, "127.0.0.1", static_cast<std::uint16_t>(1 + (static_cast<u64>(i) * nthr + w) % 60000))   // the UDP-only Via command
+                                                    : raw->connect("127.0.0.1", 1, TlsMode::None);
           if (!x.isOk()) break;            // the queue is closed: the engine has been stopped
           oks[w].push_back(x.value());
         }
@@ -1077,7 +1084,8 @@ std::string runLatch(const std::vector<std::string>& t)
   std::set<SessionId> closed;
   std::atomic<int> accepted{0}, connected{0};
   std::atomic<bool> armed{false}, issued{false};
-  std::atomic<SessionId> idA{0};
+  std::atomic<SessionId> idA{0}, idV1{0}, idV2{0};
+  std::atomic<ListenerId> lidV{0};
   Transport* raw = tr.get();
   tr->onAccept([&](SessionId, const TransportAddress&) { accepted++; });
   tr->onConnect([&](SessionId, const TransportAddress&) { connected++; });
@@ -1098,6 +1106,12 @@ std::string runLatch(const std::vector<std::string>& t)
     {
       auto r = raw->connect("127.0.0.1", 1, TlsMode::None);   // issued from a close callback of the drain: a residual command
       if (r.isOk()) idA = r.value();
+      if (udp)
+      {
+        // the UDP-only Via command (connectViaListener) issued in the same window: a residual command too; its id was handed out
+        auto rv = raw->connectViaListener(lidV.load(), "127.0.0.1", 1);
+        if (rv.isOk()) idV1 = rv.value();
+      }
       // window A: the queue is still open
       std::unique_lock<std::mutex> lk(m);
       windowA = true;
@@ -1109,6 +1123,7 @@ std::string runLatch(const std::vector<std::string>& t)
   auto l0 = tr->addListener("127.0.0.1", 0, TlsMode::None);
   if (!l0.isOk()) return "latch-listen-failed";
   std::uint16_t port = tr->getListenerAddress(l0.value()).port;
+  lidV = l0.value();
   auto c0 = tr->connect("127.0.0.1", port, TlsMode::None);
   for (int k = 0; k < 1500 && !(connected.load() >= 1 && (udp || accepted.load() >= 1)); ++k) std::this_thread::sleep_for(std::chrono::milliseconds(2));
   if (!c0.isOk() || connected.load() < 1) return "latch-setup-failed";
@@ -1126,6 +1141,12 @@ std::string runLatch(const std::vector<std::string>& t)
     ranA = true;
     pushA = udp ? pushPromise<UdpEngine, UdpEngine::Cmd, UdpEngine::ListenerCfg>(base, futA)
                 : pushPromise<TcpEngine, TcpEngine::Command, TcpEngine::ListenerCfg>(base, futA);
+    if (udp)
+    {
+      // a second thread's connectViaListener() while the I/O thread is held in window A (queue open, final process() over)
+      auto rv = raw->connectViaListener(lidV.load(), "127.0.0.1", 1);
+      if (rv.isOk()) idV2 = rv.value();
+    }
     {
       std::unique_lock<std::mutex> lk(m);
       aDone = true;
@@ -1146,9 +1167,12 @@ std::string runLatch(const std::vector<std::string>& t)
   tr->stop();
   t2.join();
   bool strandedB;
+  int viaAccepted = 0, strandedVia = 0;
   {
     std::lock_guard<std::mutex> lk(m);
     strandedB = connOk && !closed.count(idB);
+    for (SessionId v : {idV1.load(), idV2.load()})
+      if (v != 0) { viaAccepted++; if (!closed.count(v)) strandedVia++; }      // every id handed out gets its onClose, Via ids included
   }
   // the promise accepted in window A: fulfilled exactly once with `false` (a broken promise = destroyed unfulfilled)
   std::string pa = "none";
@@ -1160,7 +1184,8 @@ std::string runLatch(const std::vector<std::string>& t)
   tr.reset();
   return std::string("latch proto=") + (udp ? "udp" : "tcp") + " windowA=" + (ranA ? "1" : "0") + " window=" + (ranB ? "1" : "0") +
          " promiseAccepted=" + std::to_string(pushA) + " promise=" + pa + " promiseAfterClose=" + std::to_string(pushB) +
-         " connectAccepted=" + (connOk ? "1" : "0") + " stranded=" + (strandedB ? "1" : "0") + " sendAccepted=" + (sendOk ? "1" : "0");
+         " connectAccepted=" + (connOk ? "1" : "0") + " stranded=" + (strandedB ? "1" : "0") + " sendAccepted=" + (sendOk ? "1" : "0") +
+         (udp ? " viaAccepted=" + std::to_string(viaAccepted) + " strandedVia=" + std::to_string(strandedVia) : std::string());
 }
 
 // ownerstop tcp|udp: OBSERVATION FC05b, outside the library's shared-ownership contract (a caller inside stop() holds a reference).
